@@ -179,6 +179,19 @@ class MutV(V):
         return "%s{%s}" % (self.base.r(), "; ".join("%s %s" % (o[0], o[1]) for o in self.ops)) if self.ops else self.base.r()
 
 
+class SnapV(V):
+    """The state of a `let mut` value at one call through `&mut` (after its first k updates): two successive
+    `it.next()` calls are different values."""
+
+    def __init__(self, mv, k):
+        self.mv = mv
+        self.k = k
+
+    def r(self):
+        ops = self.mv.ops[:self.k]
+        return "%s{%s}" % (self.mv.base.r(), "; ".join("%s %s" % (o[0], o[1]) for o in ops)) if ops else self.mv.base.r()
+
+
 class PhiV(V):
     def __init__(self, alts):
         self.alts = alts
@@ -296,6 +309,8 @@ def roots(v, acc=None):
         acc.add("op:index")
         roots(v.base, acc)
         roots(v.idx, acc)
+    elif isinstance(v, SnapV):
+        roots(v.mv, acc)
     elif isinstance(v, MutV):
         roots(v.base, acc)
         if v.ops:
@@ -918,7 +933,10 @@ class Interp:
             dk = n.get("dk", "")
             if "Ctor" in dk and "Const" in dk:
                 return StructV(None, n.get("ctor_of") or n["def"], {}, node=n)
-            return Def(n["def"], dk)
+            d_ = Def(n["def"], dk)
+            if "Ctor" in dk:
+                d_.ctor_of = n.get("ctor_of") or n["def"]      # a tuple-variant / tuple-struct constructor used as a function value
+            return d_
         if n["res"] == "selfctor":
             return Def(n.get("def"), "SelfCtor")
         return Unknown("path:%s" % n["res"])
@@ -1202,9 +1220,15 @@ class Interp:
                 if self.ctx[i][0] == "act":
                     idx = i
                     break
-            if idx is not None and not any(e[0] == "rep" for e in self.ctx[idx + 1:]):
+            if idx is not None:
                 act = self.ctx[idx][1]
                 here = self.cur_cond(idx + 1)
+                reps_ = [e for e in self.ctx[idx + 1:] if e[0] == "rep"]
+                if reps_:
+                    o_ = atom("opaque", "in-loop@%s" % n.get("sp"))
+                    it_ = reps_[-1][2] if len(reps_[-1]) > 2 else reps_[-1][1]
+                    self.atom_vals[o_[1]] = ("loop", it_, elem_of(it_))
+                    here = And(o_, here)
                 outer = [e[1] for e in self.ctx[:idx] if e[0] == "cond"]
                 for c, x in errs:
                     cc = And(here, c, Not(act.ret) if act.ret is not False else True)
@@ -1523,6 +1547,10 @@ class Interp:
             self.muts.append((a0, "method:" + (inst or callee), args[1:], n, self.cur_fn(), self.cur_cond()))
             if isinstance(a0, MutV):
                 a0.ops.append(("call", last, *args[1:]))
+                if last in ("next", "next_back", "pop", "pop_front", "pop_back", "nth", "peek", "next_if", "take", "remove", "swap_remove", "split_off", "drain"):
+                    # the value the call yields depends on the state it found: freeze that state in the argument
+                    a0 = SnapV(a0, len(a0.ops))
+                    args = [a0] + list(args[1:])
         # ---- local function: inline when it carries a writer / closure, or is a bool predicate ----
         tgt = self._local_target(inst, callee)
         if tgt is not None and tgt not in self.no_inline:
@@ -1537,6 +1565,8 @@ class Interp:
                 self.inlined.add(tgt)
                 return Via("inlined", self.call_body(tgt, body, args), tgt)
             return CallV(tgt, args, n, inst)
+        if last == "collect" and len(args) == 1 and isinstance(a0, MutV) and isinstance(core(a0.base), CallV) and core(a0.base).callee == "std::vec::Vec::new" and a0.ops:
+            return a0
         # ---- transparent adaptors ----
         if last == "bytes" and len(args) == 1 and "impl str>::bytes" in callee:
             return Via("bytes", a0, inst or callee)
@@ -1559,6 +1589,45 @@ class Interp:
             return Via(last, a0, inst or callee)
         if callee.endswith("Tag::context") and len(args) == 1:
             return TagV("ctx", args[0])
+        # bool::then_some(x) / then(f): Some(..) exactly when the receiver holds
+        if last in ("then_some", "then") and len(args) == 2 and (n.get("recv") or {}).get("ty", "").lstrip("&") == "bool":
+            f_ = self.to_formula(args[0])
+            inner_ = args[1]
+            if last == "then" and isinstance(core(inner_), ClosureV):
+                inner_ = self.call_closure(core(inner_), [])
+            some_ = StructV("std::option::Option", "Some", {"0": inner_})
+            none_ = StructV("std::option::Option", "None", {})
+            if f_ is True:
+                return some_
+            if f_ is False:
+                return none_
+            return PhiV([(f_, some_), (Not(f_), none_)])
+        # `filter_map` / `map` / `filter` over a literal table: unroll it into the list it builds; each element that is
+        # kept is logged exactly like a `push` onto the resulting collection (under the condition that keeps it)
+        if last in ("filter_map", "map", "filter") and len(args) == 2 and isinstance(core(args[1]), ClosureV) and isinstance(core(args[0]), ArrayV) and 0 < len(core(args[0]).items) <= 64:
+            cl = core(args[1])
+            res = MutV(CallV("std::vec::Vec::new", [], n))
+            res.depth = len(self.ctx)
+            for it in core(args[0]).items:
+                r = self.call_closure(cl, [it])
+                if last == "map":
+                    keep, payload = True, r
+                elif last == "filter":
+                    keep, payload = self.to_formula(r), it
+                else:
+                    flat_ = flatten_phi(r)
+                    if not all(isinstance(core(x), StructV) and core(x).variant in ("Some", "None") for _, x in flat_):
+                        keep, payload = atom("some", core(r).r()), Sel(r, "?")
+                    else:
+                        somes_ = [(c_, core(x).fields.get("0")) for c_, x in flat_ if core(x).variant == "Some"]
+                        keep = Or(*[c_ for c_, _ in somes_])
+                        payload = somes_[0][1] if len(somes_) == 1 else (PhiV(somes_) if somes_ else Unknown("none"))
+                if keep is False:
+                    continue
+                c_full = And(self.cur_cond(), keep)
+                res.ops.append(("call", "push", payload))
+                self.muts.append((res, "method:unrolled::std::vec::Vec::push", [payload], n, self.cur_fn(), c_full))
+            return res
         # `find_map` over a literal table: unroll it (first element for which the closure yields Some)
         if last == "find_map" and len(args) == 2 and isinstance(core(args[1]), ClosureV) and isinstance(core(args[0]), ArrayV) and 0 < len(core(args[0]).items) <= 16:
             cl = core(args[1])
@@ -1596,10 +1665,28 @@ class Interp:
         # closures handed to foreign adaptors (map, fold, filter_map, for_each, map_err, ...):
         # apply them once to symbolic arguments so that their callees and places are visible
         _fnitem = self._is_fnitem
-        if any(isinstance(core(a), ClosureV) or _fnitem(a) for a in args):
+        def _ctoritem(x):
+            x = core(x)
+            return isinstance(x, Def) and "Ctor" in (x.dk or "") and hasattr(x, "ctor_of")
+        if any(isinstance(core(a), ClosureV) or _fnitem(a) or _ctoritem(a) for a in args):
             new_args = []
             for a in args:
                 ca = core(a)
+                if _ctoritem(ca):
+                    # `.map(SanType::DnsName)`: the constructor applied to the symbolic element / payload
+                    el = args[0] if args else Unknown("recv")
+                    rn_ty = (n.get("recv") or {}).get("ty", "")
+                    if last == "map_err":
+                        sym0 = Sel(el, "#Err.0")
+                    elif "Option<" in rn_ty[:40] or "Result<" in rn_ty[:40]:
+                        sym0 = Sel(el, "?")
+                    else:
+                        sym0 = elem_of(el)
+                    name_ = ca.ctor_of
+                    sv_ = StructV(None, name_, {"0": sym0}, node=n) if "Variant" in ca.dk else StructV(name_, None, {"0": sym0}, node=n)
+                    self.structs.append((sv_, n, self.cur_fn(), self.cur_cond()))
+                    new_args.append(Via("closure-result", sv_))
+                    continue
                 if _fnitem(ca):
                     # a named local function used as the adaptor's callback: apply it to a symbolic element
                     b_ = self.crate.bodies[ca.path]
